@@ -1049,9 +1049,9 @@ SCOPE = ("partial: proved in full - monotone square roots (least upper root, mon
          "digit), Compare*/BinarySearch/BinarySearchBigDec for every searched function (tolerance met on the requested side, in range, "
          "non-convergence only after maxIterations failed probes), Exp2 (relative 1e-19 on the whole domain 0..512, domain failures), LogBase2 "
          "(3.3e-33 for every representable positive argument) and Ln/TickLog/CustomBaseLog (that error scaled by the base change), all domain "
-         "failures.  NOT proved: an error bound for Pow/PowApprox on 0.5 <= base < 2 (only domain failures, termination of the series loop, the "
-         "integer-exponent case; that range is covered by the oracle and the bit-exact correspondence); in-domain totality of Exp2/LogBase2 "
-         "(that no range panic fires inside the domain - observed on every generated case, not proved).  Refuted with witnesses: the "
+         "failures, and in-domain totality of Exp2 and LogBase2 (no range panic inside the domain).  NOT proved: an error bound for "
+         "Pow/PowApprox on 0.5 <= base < 2 (only domain failures, termination of the series loop, the integer-exponent case; that range is "
+         "covered by the oracle and the bit-exact correspondence), accuracy of the ApproxSqrt shortcut for exponent 1/2.  Refuted with witnesses: the "
          "documented Pow precision for base < 0.5 (finding F4) and 'fails loudly' for Pow exponents <= -1 (finding F9).")
 EXPLANATION = ("Gallina model of osmomath's exp2/log/pow/sqrt/sigfig/binary-search code on raw mantissas (C13/*.v over Base/DecModel.v), with every "
                "panic/error as an explicit error value.  Integer-only theorems are axiom-free; error bounds against exp/ln use the standard "
@@ -1092,4 +1092,4 @@ LEVEL_TEXT = ("Machine-checked theorems (Coq 8.16.1) over a hand-written model: 
               "every run, and an independent big-integer oracle evaluates the property's bounds on the implementation's outputs.")
 LEVEL_NOTE = ("Trusted: Coq kernel (vm_compute; no native_compute); real-number axioms of the standard library and the primitive-integer axioms used "
               "by Coq-Interval (listed verbatim in trusted_base); hand-written model C13/*.v and Base/DecModel.v; translator regexes; Go driver "
-              "harness/c13drv; python generator/oracle/reference.  Pow error bound on [0.5,2) and in-domain totality of Exp2/LogBase2 are not proved.")
+              "harness/c13drv; python generator/oracle/reference.  The Pow error bound on [0.5,2) is not proved (oracle only).")
